@@ -1,4 +1,4 @@
-import Sentinel.Lemmas.MetricLog
+import Sentinel.Lemmas.MetricLog2
 /-!
 # C17 — Metric log is searchable, bounded, and survives truncation at any byte
 (property-level statements; helper lemmas live in `Sentinel/Lemmas/MetricLog.lean`)
@@ -84,6 +84,24 @@ theorem file_count_le_max_events (now maxSize maxFiles : Nat) (h : 0 < maxFiles)
 example : (runEvents (Writer.new 1000 1 6)
       ((List.range 9).map (fun i => Ev.write (2000 + i * 1000) [⟨0, [97], 1, 0, 0, 0, 5, 0, 0, 0⟩]) ++ [Ev.reopen 60000 1 2])).files.length = 2 := by
   decide
+
+/-- **file_names_sorted**: along every accepted history of writes and restarts the names of the retained
+    files `(date, roll number)` are *strictly increasing* in the comparator order (date first, then the
+    number) in creation order — `nextFileNameOfTime` always picks a name greater than every existing one
+    (`nextName_gt`), removal only drops a prefix.  In particular no two files share a name (no file is
+    ever re-created / truncated by a roll), which is what the seeded change C17-3 and C17-r3-3 broke. -/
+theorem file_names_sorted (now maxSize maxFiles : Nat) (evs : List Ev) (hok : EvsOK (Writer.new now maxSize maxFiles) evs) :
+    ((runEvents (Writer.new now maxSize maxFiles) evs).files.map (·.name)).Pairwise nameLt := by
+  rw [List.pairwise_map]
+  exact (nameInv_runEvents _ evs hok (nameInv_new now maxSize maxFiles)).1
+
+/-- … hence the searcher's listing order (the directory entries sorted with the comparator) **is** the
+    creation order, the order in which the model keeps the files and in which `retained_ordered` holds -/
+theorem listing_order_is_creation_order (now maxSize maxFiles : Nat) (evs : List Ev)
+    (hok : EvsOK (Writer.new now maxSize maxFiles) evs) :
+    ((runEvents (Writer.new now maxSize maxFiles) evs).files.map (·.name)).mergeSort nameLeB
+      = (runEvents (Writer.new now maxSize maxFiles) evs).files.map (·.name) :=
+  List.mergeSort_of_pairwise ((file_names_sorted now maxSize maxFiles evs hok).imp nameLeB_of_lt)
 
 /-! ## 4. L2: a data file cut at an arbitrary byte -/
 
@@ -244,6 +262,79 @@ example : Covered
   unfold Covered
   decide
 
+/-! ### `FindFromTimeWithMaxLines`
+
+The limit counts **lines**: the reader takes lines from the first one not before `begin`; once `maxLines` lines
+have been taken it goes on only while the second stays the same (so the second in which the limit is
+reached is completed) — except that at the end of a file it stops as soon as the limit is reached, even if
+that second continues in the next file.  `specFrom` is this rule over the per-file item lists. -/
+
+/-- L0: the reference answer is a prefix of the retained items not before `begin` — only written items,
+    in timestamp order, each once, none skipped — and it is all of them or at least `maxLines` of them -/
+theorem specFrom_sound_complete (files : List (List Item)) (b m : Nat) (hs : files.flatten.Pairwise secLe) :
+    specFrom files b m <+: (files.flatten.filter fun it => decide (b / 1000 ≤ it.ts / 1000)) ∧
+    (specFrom files b m = (files.flatten.filter fun it => decide (b / 1000 ≤ it.ts / 1000)) ∨
+      m ≤ (specFrom files b m).length) :=
+  specFrom_prefix_complete files b m hs
+
+/-- L0: … and it does not run on: every line beyond the first `maxLines` has the same second as the line
+    before it (`LimitRule`: line number `i ≥ maxLines` ⇒ second of line `i` = second of line `i - 1`), i.e.
+    after the limit only the second in which it was reached is completed -/
+theorem specFrom_limit_rule (files : List (List Item)) (b m : Nat) : LimitRule m 0 0 (specFrom files b m) :=
+  readFromItems_rule m _
+
+example : LimitRule 1 0 0 [⟨1000, [97], 1, 0, 0, 0, 5, 0, 0, 0⟩, ⟨1500, [98], 1, 0, 0, 0, 5, 0, 0, 0⟩] := by
+  simp [LimitRule]
+
+theorem flatten_map_lines (fs : Dir) : (fs.map (·.lines)).flatten = retained fs := by
+  simp [retained, List.flatMap]
+
+/-- the common core of the two theorems below -/
+theorem from_time_of_inv (w : Writer) (hinv : Inv w w.latestOpSec) (hlines : LinesValid w) (hlat : w.latestOpSec < 2 ^ 64)
+    (b m : Nat) (hq : 0 < m ∨ 0 < b / 1000) (hsize : ∀ f ∈ w.files, f.data.length < 2 ^ 64) (hcov : Covered w.files b) :
+    (findFrom w.files {} b m).2 = specFrom (w.files.map (·.lines)) b m := by
+  refine findFrom_fresh_partial _ b m ?_ (indexCorrect_of_inv _ hinv.ents hinv.sorted _ hcov) hq
+  intro f hf
+  refine ⟨hinv.ok f hf, ?_, hlines f hf⟩
+  intro en hen
+  obtain ⟨pre, rest, hsplit⟩ := List.append_of_mem hf
+  have hen' : en ∈ allEnts w.files := by
+    rw [hsplit, allEnts_append, allEnts_cons]; simp [hen]
+  refine ⟨lt_of_le_of_lt (hinv.bound en hen') hlat, ?_⟩
+  obtain ⟨j, _, hoff, _, _⟩ := EntsOK_split [] pre f rest (hsplit ▸ hinv.ents) en hen
+  have h1 := serialise_take_length_le f.lines j
+  have h2 := hsize f hf
+  rw [(hinv.ok f hf).1] at h2
+  omega
+
+/-- **from_time_complete_partial_events**: for every accepted history of writes and restarts, under
+    `Covered`, a fresh searcher's `FindFromTimeWithMaxLines begin maxLines` returns exactly `specFrom` of the
+    retained files; hence (`specFrom_sound_complete`, `retained_ordered`) a prefix of the retained items not
+    before `begin`, complete or at least `maxLines` long.  `hq` excludes only "limit 0 with `begin` in
+    second 0" (the reader's initial `lastSec = 0`). -/
+theorem from_time_complete_partial_events (now maxSize maxFiles : Nat) (hnow : now / 1000 < 2 ^ 64)
+    (evs : List Ev) (hok : EvsOK (Writer.new now maxSize maxFiles) evs) (b m : Nat) (hq : 0 < m ∨ 0 < b / 1000)
+    (hsize : ∀ f ∈ (runEvents (Writer.new now maxSize maxFiles) evs).files, f.data.length < 2 ^ 64)
+    (hcov : Covered (runEvents (Writer.new now maxSize maxFiles) evs).files b) :
+    (findFrom (runEvents (Writer.new now maxSize maxFiles) evs).files {} b m).2
+        = specFrom ((runEvents (Writer.new now maxSize maxFiles) evs).files.map (·.lines)) b m ∧
+    (findFrom (runEvents (Writer.new now maxSize maxFiles) evs).files {} b m).2
+        <+: ((retained (runEvents (Writer.new now maxSize maxFiles) evs).files).filter
+              fun it => decide (b / 1000 ≤ it.ts / 1000)) ∧
+    ((findFrom (runEvents (Writer.new now maxSize maxFiles) evs).files {} b m).2
+        = ((retained (runEvents (Writer.new now maxSize maxFiles) evs).files).filter
+              fun it => decide (b / 1000 ≤ it.ts / 1000)) ∨
+      m ≤ (findFrom (runEvents (Writer.new now maxSize maxFiles) evs).files {} b m).2.length) := by
+  have h := runEvents_inv (Writer.new now maxSize maxFiles) evs hok (inv_new now maxSize maxFiles)
+    (new_linesValid now maxSize maxFiles) (by simpa [Writer.new] using hnow)
+  have e := from_time_of_inv _ h.1 h.2.1 h.2.2 b m hq hsize hcov
+  have hs : ((runEvents (Writer.new now maxSize maxFiles) evs).files.map (·.lines)).flatten.Pairwise secLe := by
+    rw [flatten_map_lines]; exact h.1.ord.2.1
+  have l0 := specFrom_sound_complete _ b m hs
+  rw [flatten_map_lines] at l0
+  rw [e]
+  exact ⟨rfl, l0.1, l0.2⟩
+
 /-! ## 6. `search_total`: searching never fails, whatever the bytes are -/
 
 /-- `find` / `findFrom` are total functions of arbitrary directory contents (any bytes in the data and
@@ -261,6 +352,101 @@ theorem search_total (fs : Dir) (c : Cache) (b e m : Nat) (res : Bytes) (kd ki :
 theorem search_after_cut_only_file_items (fs : Dir) (c : Cache) (b e : Nat) (res : Bytes) (kd ki : Nat) :
     ∀ x ∈ (find (cutIdx (cutData fs kd) ki) c b e res).2, FromFiles (cutIdx (cutData fs kd) ki) x :=
   find_fromFiles _ c b e res
+
+/-! ### search level, after a crash (fresh searcher, `Covered`) -/
+
+/-- the side conditions of the search lemmas for a writer state satisfying `Inv` -/
+theorem files_wf_of_inv (w : Writer) (hinv : Inv w w.latestOpSec) (hlines : LinesValid w) (hlat : w.latestOpSec < 2 ^ 64)
+    (hsize : ∀ f ∈ w.files, f.data.length < 2 ^ 64) :
+    ∀ f ∈ w.files, FileOK f ∧ entsBounded f.ents ∧ ∀ it ∈ f.lines, Valid it := by
+  intro f hf
+  refine ⟨hinv.ok f hf, ?_, hlines f hf⟩
+  intro en hen
+  obtain ⟨pre, rest, hsplit⟩ := List.append_of_mem hf
+  have hen' : en ∈ allEnts w.files := by
+    rw [hsplit, allEnts_append, allEnts_cons]; simp [hen]
+  refine ⟨lt_of_le_of_lt (hinv.bound en hen') hlat, ?_⟩
+  obtain ⟨j, _, hoff, _, _⟩ := EntsOK_split [] pre f rest (hsplit ▸ hinv.ents) en hen
+  have h1 := serialise_take_length_le f.lines j
+  have h2 := hsize f hf
+  rw [(hinv.ok f hf).1] at h2
+  omega
+
+/-- **search_after_cut_complete_partial, data file**: for every accepted history of writes and restarts,
+    with `init ++ [cur]` the retained files (`cur` = the file being written), after cutting `cur`'s data at
+    **any** byte `k` (index intact), under `Covered`, a fresh searcher's `find begin end res` returns the
+    reference answer over *the items of the earlier files and the lines of `cur` wholly before the cut*,
+    followed by at most one extra item, which can only be what the torn fragment parses to (the region of
+    `metriclog-torn-line`).  Hence: (b) every matching item whose line lies wholly before the cut is
+    returned, in order, once; (a) everything returned except possibly that one item was written. -/
+theorem search_after_data_cut_partial (now maxSize maxFiles : Nat) (hnow : now / 1000 < 2 ^ 64)
+    (evs : List Ev) (hok : EvsOK (Writer.new now maxSize maxFiles) evs) (init : Dir) (cur : File)
+    (hfiles : (runEvents (Writer.new now maxSize maxFiles) evs).files = init ++ [cur])
+    (k b e : Nat) (res : Bytes)
+    (hsize : ∀ f ∈ (runEvents (Writer.new now maxSize maxFiles) evs).files, f.data.length < 2 ^ 64)
+    (hcov : Covered (runEvents (Writer.new now maxSize maxFiles) evs).files b) :
+    ∃ extra, (find (cutData (init ++ [cur]) k) {} b e res).2
+        = specFind (retained init ++ wholeLines cur.lines k) b e res ++ extra ∧
+      (∀ x ∈ extra, x ∈ (parseLine (dropCR (fragment cur.lines k))).toList) ∧
+      (fragment cur.lines k = [] → extra = []) ∧
+      (∀ x ∈ specFind (retained init ++ wholeLines cur.lines k) b e res, x ∈ retained (init ++ [cur])) := by
+  have h := runEvents_inv (Writer.new now maxSize maxFiles) evs hok (inv_new now maxSize maxFiles)
+    (new_linesValid now maxSize maxFiles) (by simpa [Writer.new] using hnow)
+  have hwf := files_wf_of_inv _ h.1 h.2.1 h.2.2 hsize
+  have hidx := indexCorrect_of_inv _ h.1.ents h.1.sorted _ hcov
+  have hs := h.1.ord.2.1
+  rw [hfiles] at hwf hidx hs
+  obtain ⟨extra, h1, h2⟩ := find_after_data_cut init cur k b e res hwf hs hidx
+  refine ⟨extra, h1, h2, ?_, ?_⟩
+  · intro hfr
+    cases hx : extra with
+    | nil => rfl
+    | cons x r =>
+      have := h2 x (by rw [hx]; simp)
+      rw [hfr] at this
+      simp [dropCR, parseLine] at this
+  · intro x hx
+    have := (specFind_sound _ _ _ _ _ hx).1
+    rw [retained_append]
+    rcases List.mem_append.1 this with hm | hm
+    · exact List.mem_append_left _ hm
+    · exact List.mem_append_right _ (by simpa [retained] using (wholeLines_prefix cur.lines k).subset hm)
+
+/-- **search_after_cut_complete_partial, index file**: … after cutting `cur`'s index at **any** byte `k`
+    (data intact), under `Covered`: if an index entry whose second is not before `begin` lies wholly
+    before the cut (in an earlier file, or among the first `k / 16` entries of `cur`), the answer is the
+    full reference answer; otherwise it is empty — never an error.  So (a) only written items are
+    returned, and (b) every matching item whose own index entry lies wholly before the cut is returned. -/
+theorem search_after_idx_cut_partial (now maxSize maxFiles : Nat) (hnow : now / 1000 < 2 ^ 64)
+    (evs : List Ev) (hok : EvsOK (Writer.new now maxSize maxFiles) evs) (init : Dir) (cur : File)
+    (hfiles : (runEvents (Writer.new now maxSize maxFiles) evs).files = init ++ [cur])
+    (k b e : Nat) (res : Bytes)
+    (hsize : ∀ f ∈ (runEvents (Writer.new now maxSize maxFiles) evs).files, f.data.length < 2 ^ 64)
+    (hcov : Covered (runEvents (Writer.new now maxSize maxFiles) evs).files b) :
+    (find (cutIdx (init ++ [cur]) k) {} b e res).2
+        = (if (allEnts init ++ cur.ents.take (k / 16)).any (fun en => decide (en.1 ≥ b / 1000))
+           then specFind (retained (init ++ [cur])) b e res else []) ∧
+    (∀ x ∈ specFind (retained (init ++ [cur])) b e res,
+        (∃ en ∈ allEnts init ++ cur.ents.take (k / 16), en.1 = x.ts / 1000) →
+        x ∈ (find (cutIdx (init ++ [cur]) k) {} b e res).2) := by
+  have h := runEvents_inv (Writer.new now maxSize maxFiles) evs hok (inv_new now maxSize maxFiles)
+    (new_linesValid now maxSize maxFiles) (by simpa [Writer.new] using hnow)
+  have hwf := files_wf_of_inv _ h.1 h.2.1 h.2.2 hsize
+  have huncut := search_of_inv _ h.1 h.2.1 h.2.2 b e res hsize hcov
+  rw [hfiles] at hwf huncut
+  have hcut := find_after_idx_cut init cur k b e res (fun f hf => ⟨(hwf f hf).1.2, (hwf f hf).2.1⟩)
+  rw [huncut] at hcut
+  refine ⟨hcut, ?_⟩
+  intro x hx ⟨en, hen, hes⟩
+  have hany : (allEnts init ++ cur.ents.take (k / 16)).any (fun en => decide (en.1 ≥ b / 1000)) = true := by
+    rw [List.any_eq_true]
+    refine ⟨en, hen, ?_⟩
+    have := (specFind_sound _ _ _ _ _ hx).2.1
+    simp only [inRange, Bool.and_eq_true, decide_eq_true_eq] at this
+    simp only [decide_eq_true_eq]
+    omega
+  rw [hcut, if_pos hany]
+  exact hx
 
 /-! ## 7. what the pinned code violates (known findings, `known/C17.jsonl`) -/
 
